@@ -377,10 +377,116 @@ def ctor_class_convention(ctx):
                                 break
 
 
+def cube_rotations():
+    """the 24 rotations whose matrices have integer entries (signed permutations of determinant +1)"""
+    out = []
+    for perm in itertools.permutations(range(3)):
+        for sg in itertools.product((1, -1), repeat=3):
+            R = np.zeros((3, 3), dtype=int)
+            for i in range(3):
+                R[i, perm[i]] = sg[i]
+            if round(np.linalg.det(R)) == 1:
+                out.append(R)
+    return out
+
+
+def integer_cases(ctx):
+    """rotations held in integer (or single precision) arrays, as a hand-typed quarter or half turn is: every extraction, every
+    order/unit/flip, every entry point; complete over the 24 integer rotation matrices (3-D) and the 4 of the plane"""
+    import spatialmath as sm
+    import spatialmath.base as b
+    for ri, Ri in enumerate(cube_rotations()):
+        Rf = Ri.astype(float)
+        for dt in ('int64', 'int32', 'float32'):
+            R = Ri.astype(dt)
+            T = np.eye(4).astype(dt)
+            T[:3, :3] = R
+            T[:3, 3] = np.array([1, -2, 3]).astype(dt)
+            ents = [('base/3x3', lambda fn, **kw: getattr(b, 'tr2' + fn)(R.copy(), **kw)), ('base/4x4', lambda fn, **kw: getattr(b, 'tr2' + fn)(T.copy(), **kw)),
+                    ('SO3', lambda fn, **kw: getattr(sm.SO3(R.copy()), fn)(**kw)), ('SE3', lambda fn, **kw: getattr(sm.SE3(T.copy()), fn)(**kw))]
+            calls = [('rpy', dict(order=o), (lambda a, o=o: ref.rpy(a[0], a[1], a[2], o))) for o in c01.ORDERS]
+            calls += [('eul', dict(flip=fl), (lambda a: ref.eul(a[0], a[1], a[2]))) for fl in (False, True)]
+            for en, f in ents:
+                for fn, kw, rebuild in calls:
+                    site = site_of(en, fn)
+                    out = {}
+                    for u in ('rad', 'deg'):
+                        cid = 'C05/int/R%d/%s/%s/%s/%s/%s' % (ri, dt, en, fn, ','.join('%s=%s' % kv for kv in kw.items()), u)
+                        if not ctx.want(cid):
+                            continue
+                        ctx.case(cid, key=cid, trivial=(ri == 0))
+                        P = dict(entry=en, dtype=dt, unit=u, mode='integer', rot=ri, **{k: str(v) for k, v in kw.items()})
+                        ok, a = call(f, fn, unit=u, **kw)
+                        if not ok:
+                            ctx.fail(cid, site, 'raises:' + type(a).__name__, P, '%s of an %s matrix raised %r' % (fn, dt, a))
+                            continue
+                        a = vec3(ctx, cid, site, P, a)
+                        if a is None:
+                            continue
+                        out[u] = a
+                        ar = a if u == 'rad' else a * PI / 180
+                        d = ref.maxdiff(rebuild(ar), Rf)
+                        if d > TOL:
+                            ctx.fail(cid, site, 'mismatch', dict(P, what='rebuild'), 'rebuilding from %r differs from the %s matrix by %.3g' % (ar.tolist(), dt, d))
+                    if len(out) == 2 and np.abs(out['deg'] - out['rad'] * 180 / PI).max() > 1e-5 * max(1.0, np.abs(out['deg']).max()):
+                        ctx.fail(cid, site, 'mismatch', dict(P, what='deg-vs-rad'), 'deg %r vs rad %r' % (out['deg'].tolist(), out['rad'].tolist()))
+                site = site_of(en, 'angvec')
+                for u in ('rad', 'deg'):
+                    cid = 'C05/int/R%d/%s/%s/angvec/%s' % (ri, dt, en, u)
+                    if not ctx.want(cid):
+                        continue
+                    ctx.case(cid, key=cid, trivial=(ri == 0))
+                    P = dict(entry=en, dtype=dt, unit=u, mode='integer', rot=ri)
+                    ok, r = call(f, 'angvec', unit=u)
+                    if not ok:
+                        ctx.fail(cid, site, 'raises:' + type(r).__name__, P, 'angvec of an %s matrix raised %r' % (dt, r))
+                        continue
+                    try:
+                        ang, v = float(r[0]), np.asarray(r[1], dtype=float)
+                        assert v.shape == (3,) and math.isfinite(ang) and np.all(np.isfinite(v))
+                    except Exception:
+                        ctx.fail(cid, site, 'returns:' + type(r).__name__, P, 'expected (theta, v): %r' % (r,))
+                        continue
+                    ar = ang if u == 'rad' else ang * PI / 180
+                    n = float(np.linalg.norm(v))
+                    Rb = ref.mp_rot(v, ar) if (n > 0 and ar != 0) else np.eye(3)
+                    if ref.maxdiff(Rb, Rf) > TOL:
+                        ctx.fail(cid, site, 'mismatch', dict(P, what='rebuild'), 'rebuilding from (%r, %r) differs from the %s matrix by %.3g' % (ar, v.tolist(), dt, ref.maxdiff(Rb, Rf)))
+    for k, (c, s_) in enumerate(((1, 0), (0, 1), (-1, 0), (0, -1))):
+        for dt, tr in itertools.product(('int64', 'int32', 'float32'), ((0, 0), (5, -3))):
+            R = np.array([[c, -s_], [s_, c]]).astype(dt)
+            T = np.eye(3).astype(dt)
+            T[:2, :2] = R
+            T[:2, 2] = np.array(tr).astype(dt)
+            Tf = T.astype(float)
+            for en, f in (('base.tr2xyt', lambda u: b.tr2xyt(T.copy(), unit=u)), ('SE2.xyt', lambda u: sm.SE2(T.copy()).xyt() if u == 'rad' else None),
+                          ('SO2.theta', lambda u: np.r_[0.0, 0.0, sm.SO2(R.copy()).theta(unit=u)]), ('SE2.theta', lambda u: np.r_[tr, sm.SE2(T.copy()).theta(unit=u)])):
+                for u in ('rad', 'deg'):
+                    if en == 'SE2.xyt' and u == 'deg':
+                        continue
+                    cid = 'C05/int/2D/k=%d/%s/t=%s/%s/%s' % (k, dt, tr[0], en, u)
+                    if not ctx.want(cid):
+                        continue
+                    ctx.case(cid, key=cid, trivial=(k == 0 and tr[0] == 0))
+                    P = dict(entry=en, dtype=dt, unit=u, mode='integer', rot=k)
+                    ok, a = call(f, u)
+                    if not ok:
+                        ctx.fail(cid, en, 'raises:' + type(a).__name__, P, '%s of an %s matrix raised %r' % (en, dt, a))
+                        continue
+                    a = vec3(ctx, cid, en, P, a)
+                    if a is None:
+                        continue
+                    ang = a[2] if u == 'rad' else a[2] * PI / 180
+                    want = Tf if en != 'SO2.theta' else ref.rt(Tf[:2, :2], (0, 0))
+                    d = ref.maxdiff(ref.rt(ref.rot2(ang), a[:2]), want)
+                    if d > TOL * 5:
+                        ctx.fail(cid, en, 'mismatch', dict(P, what='rebuild'), 'rebuilding from %r differs from the %s matrix by %.3g' % (a.tolist(), dt, d))
+
+
 def shards(tier, seed):
     n = 6 if tier == 'quick' else 24
     out = [('rpy', k, n) for k in range(n)] + [('eul', k, n) for k in range(n)]
-    out += [('angvec',), ('planar',), ('ctor',), ('ctorclass',)]
+    out += [('angvec',), ('planar',), ('ctor',), ('ctorclass',), ('int',)]
     return out
 
 
@@ -394,6 +500,8 @@ def run_shard(ctx, shard):
         angvec_cases(ctx)
     elif k == 'planar':
         planar_cases(ctx)
+    elif k == 'int':
+        integer_cases(ctx)
     elif k == 'ctorclass':
         ctor_class_convention(ctx)
     else:
